@@ -4,7 +4,7 @@ from . import facts
 from .core import Ctx
 
 VERIF = facts.VERIF
-EVID = os.path.join(VERIF, 'evidence')
+EVID = os.environ.get('XL_EVID_DIR') or os.path.join(VERIF, 'evidence')
 
 ASSUMPTIONS = [
     "trusted base: rustc's MIR construction and type checker (nightly, mir_promoted bodies); the xetlint extractor",
